@@ -15,9 +15,7 @@ def heldDigits (c : Cfg) : Situation → List Nat
   | .normal => []
   | .inverted n first => first :: List.replicate (n - 1) (2^c.W - 1)
 
-def heldCount : Situation → Nat
-  | .normal => 0
-  | .inverted n _ => n
+abbrev heldCount : Situation → Nat := Situation.held
 
 /-- all words produced so far (finalised and held-back, uncarried) -/
 def digitsOf (c : Cfg) (e : Encoder) : List Nat := e.bulk ++ heldDigits c e.situation
@@ -34,10 +32,10 @@ theorem heldDigits_length {c : Cfg} {sit : Situation}
   | normal => rfl
   | inverted n f =>
     have := h n f rfl
-    simp only [heldDigits, heldCount, List.length_cons, List.length_replicate]; omega
+    simp only [heldDigits, heldCount, Situation.held, List.length_cons, List.length_replicate]; omega
 
 theorem absE_empty (c : Cfg) : absE c (Encoder.empty c) = RangeSpec.init c.S := by
-  simp [absE, absLo, digitsOf, heldDigits, heldCount, Encoder.empty, RangeSpec.init, maxState]
+  simp [absE, absLo, digitsOf, heldDigits, heldCount, Situation.held, Encoder.empty, RangeSpec.init, maxState]
 
 /-- appending the top word of `lower` and shifting the register is multiplication by `2^W` -/
 theorem shift_digit {c : Cfg} (hc : RValid c) (ds : List Nat) (lower : Nat) :
@@ -84,15 +82,15 @@ theorem renormP_abs {c : Cfg} (hc : RValid c) {bulk : List Nat} {sit : Situation
         have : n + 1 - 1 = (n - 1) + 1 := by omega
         rw [this, List.replicate_succ']
         rfl
-      simp only [absE, absLo, digitsOf, heldDigits, heldCount]
+      simp only [absE, absLo, digitsOf, heldDigits, heldCount, Situation.held, Situation.held]
       rw [hrep, ← List.append_assoc, shift_digit hc]
       simp only [Nat.add_assoc]
     | normal =>
       by_cases hw : (lower % 2^(c.S - c.W)) * 2^c.W + range * 2^c.W < 2^c.S
-      · simp only [hw, if_true, absE, absLo, digitsOf, heldDigits, heldCount,
+      · simp only [hw, if_true, absE, absLo, digitsOf, heldDigits, heldCount, Situation.held,
           List.append_nil, List.length_append, List.length_singleton, Nat.add_zero]
         rw [shift_digit hc]
-      · simp only [hw, if_false, absE, absLo, digitsOf, heldDigits, heldCount,
+      · simp only [hw, if_false, absE, absLo, digitsOf, heldDigits, heldCount, Situation.held,
           List.append_nil, Nat.add_zero, Nat.sub_self, List.replicate_zero]
         rw [shift_digit hc]
   · simp only [hlt, if_false, absE, absLo, digitsOf]
@@ -114,7 +112,7 @@ theorem resolveP_abs {c : Cfg} {e : Encoder} {off r1 : Nat}
     rw [hsit] at hs
     simp only [SitInv] at hs
     have h1 : e.lower + off < 2^c.S := by omega
-    simp only [Nat.mod_eq_of_lt h1, heldDigits, heldCount, List.append_nil]
+    simp only [Nat.mod_eq_of_lt h1, heldDigits, heldCount, Situation.held, List.append_nil]
     constructor
     · omega
     · trivial
@@ -129,24 +127,24 @@ theorem resolveP_abs {c : Cfg} {e : Encoder} {off r1 : Nat}
       have hnc : ¬ (e.lower + off < e.lower) := by omega
       by_cases h : (e.lower + off + r1) % 2^c.S > e.lower + off
       · simp only [h, if_true, hnc, decide_false, heldP, Bool.false_eq_true, if_false,
-          heldDigits, heldCount, List.append_nil, List.length_append, List.length_cons,
+          heldDigits, heldCount, Situation.held, List.append_nil, List.length_append, List.length_cons,
           List.length_replicate]
         constructor
         · omega
         · omega
-      · simp only [h, if_false, heldDigits, heldCount]
+      · simp only [h, if_false, heldDigits, heldCount, Situation.held, Situation.held]
         constructor
         · omega
         · trivial
     · -- `lower + off` wraps: the carry happens
       have hnl : (e.lower + off) % 2^c.S = e.lower + off - 2^c.S := by
-        rw [mod_two_aux h2]; simp [hwrap]
+        rw [mod_two h2]; simp [hwrap]
       rw [hnl]
       have hcarry : e.lower + off - 2^c.S < e.lower := by omega
       have h3 : e.lower + off - 2^c.S + r1 < 2^c.S := by omega
       have h : (e.lower + off - 2^c.S + r1) % 2^c.S > e.lower + off - 2^c.S := by
         rw [Nat.mod_eq_of_lt h3]; omega
-      simp only [h, if_true, hcarry, decide_true, heldP, heldDigits, heldCount,
+      simp only [h, if_true, hcarry, decide_true, heldP, heldDigits, heldCount, Situation.held,
         List.append_nil, List.length_append, List.length_cons, List.length_replicate]
       constructor
       · rw [val_carry]
